@@ -205,7 +205,9 @@ func (p *c19) str(r *core.Rand) string {
 	return c19Strings[r.Intn(len(c19Strings))]
 }
 
-func nontrivStr(s string) bool { return s != "" && (len(s) != utf8.RuneCountInString(s) || len(s) >= 3) }
+func nontrivStr(s string) bool {
+	return s != "" && (len(s) != utf8.RuneCountInString(s) || len(s) >= 3)
+}
 
 func (p *c19) idempotence(rec *core.Recorder, r *core.Rand) {
 	rec.Count("law:idempotence", 1)
